@@ -473,3 +473,5 @@ def run(ctx, rep):
     # nothing that was written is dropped: a comment ends at its first *) (otherwise the code up to the next comment vanishes)
     from rules import c08_trivia
     c08_trivia.run_comment(ctx, rep, rid="R-C01-comment")
+    from rules.c08 import rule_prestep
+    rule_prestep(ctx, rep, rid="R-C01-prestep")
